@@ -473,3 +473,36 @@ Proof.
   - apply Rmult_le_reg_r with n; [exact Hn|]. unfold Rdiv. rewrite Rmult_assoc, Rinv_l by lra. lra.
   - apply Rmult_le_reg_r with n; [exact Hn|]. unfold Rdiv. rewrite Rmult_assoc, Rinv_l by lra. lra.
 Qed.
+
+Lemma average_buried_fraction_unit : forall (s : stateR) dst src0 (srcs : list (nat * list nat)),
+  ~ In dst (map fst srcs) -> srcs <> [] -> (forall x, In x (map fst srcs) -> 0 <= g_buried (s x) <= 1) ->
+  let n := INR (length srcs) in let sc := step s (OClone dst src0) in
+  let s' := step (iadd_all sc dst srcs) (ODiv dst n) in 0 <= g_buried (s' dst) <= 1.
+Proof.
+  intros s dst src0 srcs H1 H2 H3 n sc s'.
+  destruct (average_is_mean_over_present s dst src0 srcs H1) as (_ & _ & _ & D & _). unfold s', sc, n. rewrite D.
+  exact (average_in_range (@g_buried R) s dst src0 srcs 0 1 H1 H2 H3).
+Qed.
+
+Lemma average_desolvation_range : forall (s : stateR) dst src0 (srcs : list (nat * list nat)) lo hi,
+  ~ In dst (map fst srcs) -> srcs <> [] -> (forall x, In x (map fst srcs) -> lo <= g_vol (s x) <= hi) ->
+  let n := INR (length srcs) in let sc := step s (OClone dst src0) in
+  let s' := step (iadd_all sc dst srcs) (ODiv dst n) in lo <= g_vol (s' dst) <= hi.
+Proof.
+  intros s dst src0 srcs lo hi H1 H2 H3 n sc s'.
+  destruct (average_is_mean_over_present s dst src0 srcs H1) as (_ & B & _). unfold s', sc, n. rewrite B.
+  exact (average_in_range (@g_vol R) s dst src0 srcs lo hi H1 H2 H3).
+Qed.
+
+Lemma single_conformation_identity : forall (s : stateR) dst src fresh, dst <> src ->
+  let s' := step (iadd_all (step s (OClone dst src)) dst [(src, fresh)]) (ODiv dst 1) in
+  g_pka (s' dst) = g_pka (s src) /\ g_vol (s' dst) = g_vol (s src) /\ g_loc (s' dst) = g_loc (s src).
+Proof.
+  intros s dst src fresh Hne. cbv zeta.
+  assert (H1 : ~ In dst (map fst [(src, fresh)])) by (cbn; intros [E|[]]; congruence).
+  assert (H2 : [(src, fresh)] <> []) by discriminate.
+  destruct (average_is_mean_over_present s dst src [(src, fresh)] H1) as (A & B & C & _).
+  cbn [length INR] in A, B, C. rewrite A, B, C. rewrite !mean_of_cons, !mean_of_nil.
+  assert (E : step s (OClone dst src) src = s src) by (cbn [step]; apply upd_other; congruence). rewrite E.
+  repeat split; field.
+Qed.
